@@ -944,8 +944,12 @@ class DateTime(_BaseDateTime, dtypes.Timestamp):
 
         if isinstance(data_container, pd.DataFrame):
             # pd.to_datetime transforms a df input into a series.
-            # We actually want to coerce every columns.
-            return data_container.transform(_to_datetime)
+            # We actually want to coerce every columns. DataFrame.transform
+            # would leave the columns of an empty dataframe as they are.
+            coerced = data_container.copy()
+            for i in range(coerced.shape[1]):
+                coerced.isetitem(i, _to_datetime(coerced.iloc[:, i]))
+            return coerced
 
         return _to_datetime(data_container)
 
@@ -1114,8 +1118,12 @@ class Date(_BaseDateTime, dtypes.Date):
 
         if isinstance(data_container, pd.DataFrame):
             # pd.to_datetime transforms a df input into a series.
-            # We actually want to coerce every columns.
-            return data_container.transform(_to_datetime)
+            # We actually want to coerce every columns. DataFrame.transform
+            # would leave the columns of an empty dataframe as they are.
+            coerced = data_container.copy()
+            for i in range(coerced.shape[1]):
+                coerced.isetitem(i, _to_datetime(coerced.iloc[:, i]))
+            return coerced
 
         return _to_datetime(data_container)
 
